@@ -33,23 +33,24 @@ coverage_extra = C04.coverage_extra
 
 def bounds(tier: str) -> Dict[str, Any]:
     return {"messages": "M = 3 quick / 4 thorough, all kind sequences", "A": "None or unbounded Int >= 1", "P": "unbounded Int >= 0",
-            "N": "None or unbounded Int >= 1", "environment choices": "K = 6 quick / 8 thorough, then deterministic drain"}
+            "N": "None or unbounded Int >= 1", "environment choices": "K = 6 quick / 7 thorough, then deterministic drain"}
 
 
 def cases(tier: str) -> List[Any]:
     out = []
     M = 3 if tier == "quick" else 4
-    K = 6 if tier == "quick" else 8
+    K = 6 if tier == "quick" else 7
+    depth = 2 if tier == "quick" else 4
     for cfg in ("A", "AN", "noneA", "end"):
-        for k0 in _listen.KINDS:
-            for prefix in itertools.product(range(3), repeat=2):
+        for k0 in ("valid", "malformed", "unknown", "malformed_raw"):
+            for prefix in itertools.product(range(3), repeat=depth):
                 out.append({"M": M, "K": K, "cfg": cfg, "k0": k0, "prefix": list(prefix)})
     return out
 
 
 def harness(c: sym.Ctx, case: Dict[str, Any]) -> None:
     M = case["M"]
-    kinds = [case["k0"]] + [c.choose(("valid", "unknown", "malformed_raw"), f"kind{k}") for k in range(1, M)]
+    kinds = [case["k0"]] + [c.choose(("valid", "unknown", "malformed_raw", "empty"), f"kind{k}") for k in range(1, M)]
     cfg = case["cfg"]
     spec = {"M": M, "kinds": kinds, "outcomes": ["return"] * M, "A": "none" if cfg == "noneA" else "sym", "P": "sym",
             "N": "sym" if cfg == "AN" else "none", "wtt": None, "K": case["K"], "prefix": case["prefix"], "stream_end": cfg == "end"}
